@@ -4,7 +4,7 @@ import sympy as sp
 from sympy import Symbol, Function, S, Rational
 from ..ir import (AnalysisBroken, Undecided, show, strip, strip_casts, walk_stmts, stmt_exprs, walk_expr, calls,
                   all_exprs, local_decls, make_generated, loop_container)
-from ..symx import Symx, State, Arr, is_zero, return_cases, cond_atoms, strict_ranges
+from ..symx import Symx, State, Arr, is_zero, return_cases, cond_atoms, strict_ranges, terms_at, enclosing_loops
 
 L = 'libphysica::'
 NU = L + 'natural_units::'
@@ -429,35 +429,64 @@ def io(prog, ctx):
             probs.append('the converted value is not streamed directly as a double (In_Units calls: %d, streamed: %d): formatting through another '
                          'conversion changes the number of significant digits' % (len(allu), len(vals)))
         else:
-            a = [show(strip_casts(x)).replace(' ', '') for x in vals[0]['args'][:2]]
-            g = __import__('lpv.guards', fromlist=['GuardScan']).GuardScan(prog, et, {})
-            dimexpr = show(strip_casts(g.subst(vals[0]['args'][1]))).replace(' ', '')
-            loops = [s for s in walk_stmts(et.body) if s['k'] == 'For']
-            lv = [s['init']['decls'][0]['name'] for s in loops]
-            if len(lv) != 2 or a[0] != '%s[%s][%s]' % (ps[1], lv[0], lv[1]):
-                probs.append('streamed element is %s' % a[0])
-            if dimexpr not in ('%s.empty()?1.0:%s[%s]' % (ps[2], ps[2], lv[1] if len(lv) == 2 else '?'),):
-                probs.append('unit of column c is %s, expected dimensions.empty() ? 1 : dimensions[c]' % dimexpr)
+            # the streamed element and its unit, as terms in the state inside the two loops
+            stm_ = [s_ for s_, chain in ops if any(strip_casts(o) is vals[0] for o in chain)][0]
+            try:
+                sxe, res = terms_at(prog, et, stm_, vals[0]['args'][:2])
+                loops = enclosing_loops(et, stm_)
+                if len(res) != 1 or len(loops) != 2:
+                    raise Undecided('%d states reach the output statement inside %d loops' % (len(res), len(loops)))
+                st_, (elem, unit) = res[0]
+                cls_ = [sxe.counted(l_, st_) for l_ in loops]
+                if not all(cls_):
+                    raise Undecided('output loops are not counted loops')
+                lsym, csym = [sp.Symbol(c_[0]['name'] + '_', integer=True) for c_ in cls_]
+                D, U = Function(ps[1], real=True), Function(ps[2], real=True)
+                nU = sp.Symbol('len(%s)' % ps[2], integer=True, nonnegative=True)
+                if elem != D(lsym, csym):
+                    probs.append('streamed element is %s' % elem)
+                want_u = (sp.Piecewise((1, sp.Eq(nU, 0)), (U(csym), True)), sp.Piecewise((U(csym), sp.Ne(nU, 0)), (1, True)))
+                if not any(unit == w_ or sp.simplify(unit - w_) == 0 for w_ in want_u):
+                    probs.append('unit of column c is %s, expected dimensions.empty() ? 1 : dimensions[c]' % unit)
+                if not (cls_[0][1] == 0 and str(cls_[0][2]) == 'len(%s)' % ps[1] and cls_[1][1] == 0 and str(cls_[1][2]) in ('len(%s[%s])' % (ps[1], cls_[0][0]['name']),)):
+                    probs.append('the output loops run over [%s,%s) x [%s,%s), not over every element of the table' % (cls_[0][1], cls_[0][2], cls_[1][1], cls_[1][2]))
+            except Undecided as ex_:
+                probs.append('?' + str(ex_))
         hdr = [s for s in walk_stmts(et.body) if s['k'] == 'If' and show(s['cond']).replace(' ', '') in ('%s.length()>0' % ps[3], '!%s.empty()' % ps[3], '%s.size()>0' % ps[3])]
         if len(hdr) != 1:
             probs.append('header line is not written exactly when the header is non-empty')
-        ctx.decide(R, 'Export_Table', et, not probs, 'streams In_Units(data[l][c], dim(c)) as doubles; one header line iff header non-empty', '; '.join(probs),
-                   witness={'reproducer': 'values below 0.1 in the export unit lose digits (0.00123456 -> 0.001235, 1e-10 -> 0)'} if probs else None)
+        if probs and all(p_.startswith('?') for p_ in probs):
+            ctx.undecided(R, 'Export_Table', et, 'output loops outside the understood fragment: ' + '; '.join(p_[1:] for p_ in probs))
+        else:
+            ctx.decide(R, 'Export_Table', et, not probs, 'streams In_Units(data[l][c], dim(c)) as doubles; one header line iff header non-empty', '; '.join(p_.lstrip('?') for p_ in probs),
+                       witness={'reproducer': 'values below 0.1 in the export unit lose digits (0.00123456 -> 0.001235, 1e-10 -> 0)'} if probs else None)
     it = prog.fn(L + 'Import_Table')
     ps = [p['name'] for p in it.params]          # filepath, dimensions, ignored_initial_lines
     probs = []
-    asg = [(show(e['lhs']).replace(' ', ''), e) for e in all_exprs(it) if e.get('k') == 'Bin' and e['op'] == '=' and strip_casts(e['lhs']).get('k') == 'Index'
-           and strip_casts(strip_casts(e['lhs'])['base']).get('k') == 'Index']
-    g = __import__('lpv.guards', fromlist=['GuardScan']).GuardScan(prog, it, {})
+    asg = []
+    for s_ in walk_stmts(it.body):
+        if s_['k'] == 'Expr':
+            e = strip(s_['e'])
+            if e.get('k') == 'Bin' and e['op'] == '=' and strip_casts(e['lhs']).get('k') == 'Index' and strip_casts(strip_casts(e['lhs'])['base']).get('k') == 'Index':
+                asg.append((s_, e))
     okv = False
-    for l, e in asg:
-        rhs = show(strip_casts(g.subst(e['rhs']))).replace(' ', '')
-        m = re.match(r'data\[(\w+)\]\[(\w+)\]$', l)
-        if m:
-            i, j = m.groups()
-            okv = rhs in ('data_aux[k]*(%s.empty()?1.0:%s[%s])' % (ps[1], ps[1], j), '(%s.empty()?1.0:%s[%s])*data_aux[k]' % (ps[1], ps[1], j))
+    for s_, e in asg:
+        try:
+            inner = strip_casts(e['lhs'])
+            outer = strip_casts(inner['base'])
+            sxi, res = terms_at(prog, it, s_, [e['rhs'], outer['idx'], inner['idx']])
+            if len(res) != 1:
+                raise Undecided('%d states reach the element assignment' % len(res))
+            rhs, ri, ci = res[0][1]
+            U = Function(ps[1], real=True)
+            nU = sp.Symbol('len(%s)' % ps[1], integer=True, nonnegative=True)
+            unit = sp.Piecewise((1, sp.Eq(nU, 0)), (U(ci), True))
+            toks = [a_ for a_ in rhs.atoms(sp.core.function.AppliedUndef) if a_.func != U]
+            okv = len(toks) == 1 and len(toks[0].args) == 1 and (sp.simplify(rhs - unit * toks[0]) == 0 or rhs == unit * toks[0])
             if not okv:
-                probs.append('imported element is %s' % rhs)
+                probs.append('imported element (%s,%s) is %s' % (ri, ci, rhs))
+        except Undecided as ex_:
+            probs.append('imported element not understood: %s' % ex_)
     if not asg:
         probs.append('element assignment not found')
     ign = [s for s in walk_stmts(it.body) if s['k'] == 'For' and show(s['cond']).replace(' ', '') == 'i<%s' % ps[2]
@@ -478,7 +507,18 @@ def io(prog, ctx):
     if len(streams) == 1:
         vals = [strip_casts(o) for s, chain in stream_operands(prog, el, streams[0]) for o in chain
                 if strip_casts(o).get('k') == 'Call' and (strip_casts(o).get('callee') or {}).get('q') == NU + 'In_Units']
-        okl = len(vals) == 1 and [show(strip_casts(x)).replace(' ', '') for x in vals[0]['args'][:2]] == ['%s[i]' % ps[1], ps[2]]
+        if len(vals) == 1:
+            stm_ = [s_ for s_, chain in stream_operands(prog, el, streams[0]) if any(strip_casts(o) is vals[0] for o in chain)][0]
+            try:
+                sxl, res = terms_at(prog, el, stm_, vals[0]['args'][:2])
+                loops = enclosing_loops(el, stm_)
+                if len(res) == 1 and len(loops) == 1 and sxl.counted(loops[0], res[0][0]):
+                    cl_ = sxl.counted(loops[0], res[0][0])
+                    isym = sp.Symbol(cl_[0]['name'] + '_', integer=True)
+                    okl = res[0][1][0] == Function(ps[1], real=True)(isym) and res[0][1][1] == sxl.symbol(ps[2], 'double') \
+                        and cl_[1] == 0 and str(cl_[2]) == 'len(%s)' % ps[1]
+            except Undecided:
+                okl = False
     ctx.decide(R, 'Export_List', el, okl, 'streams In_Units(data[i], dimension) line by line', 'Export_List does not stream In_Units(data[i], dimension)')
     il = prog.fn(L + 'Import_List')
     ps = [p['name'] for p in il.params]
@@ -520,15 +560,26 @@ def io(prog, ctx):
                     routs = sxr.run()
                 except Undecided:
                     routs = []
-                okf = len(routs) == 1
+                okf = len(routs) in (1, 2) and all(o_.kind == 'end' or o_.kind == 'return' for o_ in routs)
                 if okf:
-                    st_ = routs[0].state
                     a_ = dl[0]['args']
-                    grid = sxr.sym_or_name(a_[2], st_)
                     lo_, hi_, n_ = sxr.symbol(ps[2], 'double'), sxr.symbol(ps[3], 'double'), sxr.symbol(ps[4], 'unsigned int')
                     lg = sxr.symbol(ps[6], 'bool')
                     LS, LIN = Function(L + 'Log_Space', real=True)(lo_, hi_, n_), Function(L + 'Linear_Space', real=True)(lo_, hi_, n_)
-                    want_g = (sp.Piecewise((LS, sp.Ne(lg, 0)), (LIN, True)), sp.Piecewise((LIN, sp.Eq(lg, 0)), (LS, True)))
-                    okf = any(grid == w_ for w_ in want_g) and \
+                    cases = []
+                    for o_ in routs:
+                        g_ = sxr.sym_or_name(a_[2], o_.state)
+                        if isinstance(g_, sp.Piecewise):
+                            prev = sp.true
+                            for val_, cnd_ in g_.args:
+                                cases.append((sp.And(o_.cond, prev, cnd_) if cnd_ not in (True, sp.true) else sp.And(o_.cond, prev), val_))
+                                if cnd_ not in (True, sp.true):
+                                    prev = sp.And(prev, sp.Not(cnd_))
+                        else:
+                            cases.append((o_.cond, g_))
+                    on = (sp.Ne(lg, 0), sp.Eq(lg, 1), lg)
+                    off = (sp.Eq(lg, 0), sp.Not(lg))
+                    okf = len(cases) == 2 and any(v_ == LS and any(x_ in on for x_ in cond_atoms(c_)) for c_, v_ in cases) \
+                        and any(v_ == LIN and any(x_ in off for x_ in cond_atoms(c_)) for c_, v_ in cases) and \
                         [show(strip_casts(x_)).replace(' ', '') for x_ in (a_[0], a_[1], a_[3], a_[4])] == [ps[0], ps[1], ps[5], ps[7]]
             ctx.decide(R, 'Export_Function(range)', f, okf, 'tabulates on Linear_Space/Log_Space(xMin,xMax,steps) and delegates', 'Export_Function(range) not recognised')
